@@ -5,9 +5,11 @@ find_G_and_neighbours) of wannierberri/w90files/bkvectors.py, observed through t
 wk, bk_cart, bk_grid, neighbours, G, kpt_grid of the returned object.
 
 Oracles (none of them uses the shell search or the weight solver of the library):
-  (B1)     sum_b w_b b_i b_j = delta_ij to 1e-8 (a residual between 1e-8 and the default bk_complete_tol gets its own
-           mechanism: an incomplete shell set accepted by the threshold), with b recomputed by the harness from bk_grid and the
-           mesh basis recip_lattice/mp_grid (and bk_cart == that product);
+  (B1)     sum_b w_b b_i b_j = delta_ij, with b recomputed by the harness from bk_grid and the mesh basis
+           recip_lattice/mp_grid (and bk_cart == that product).  The library accepts a shell set when the Frobenius
+           residual is below its documented parameter bk_complete_tol (default 1e-5): 75 % of the cases pass
+           bk_complete_tol=1e-9 and require 1.1e-8 (rounding is ~1e-12), the others use the default and are judged at
+           1e-5 (how often the default lets a residual > 1e-8 through is only counted);
   (+-)     the set {(b, w)} is closed under b -> -b with equal weights, no repeated and no zero vector;
   (shells) brute force in the harness: every vector n.basis of the mesh lattice inside a box that provably
            contains the ball of radius max|b| is enumerated; every one whose length equals that of a selected
@@ -36,6 +38,7 @@ RHOMBO_X = [0.1, 0.2, 0.25, -0.2, -0.1, 0.4, 0.05, 0.3]  # rows (1,x,x): .25 = f
 LEN_EQ = 1e-9    # two lengths closer than this are "equal" (rounding noise is 1e-15)
 LEN_TIE = 1e-5   # closer than this but not equal: tie zone of the library's kmesh_tol=1e-7 -> skipped
 B1_TOL = 1e-8
+BK_TOL_TIGHT = 1e-9     # bk_complete_tol passed explicitly in most cases; B1 is then required to 10*tol + 1e-9
 BK_COMPLETE_TOL = 1e-5  # documented default of from_kpoints: Frobenius residual below which a shell set is accepted
 SEARCH_SUPERCELL = 2  # documented default of from_kpoints / find_bk_vectors (index box +-2*mp_grid)
 
@@ -162,10 +165,21 @@ def case(ctx, rng, idx, state):
     wit = dict(kind=kind, mode=mode, setting=setting, rotated=rotated, real_lattice=L, mp_grid=mp, cond=cond,
                NK=NK, kptirr=kptirr, rounded=rounded)
 
+    # completeness tolerance: the documented parameter bk_complete_tol (Frobenius residual below which a shell set is
+    # accepted).  Mostly passed tight, so that B1 is decided at ~1e-8; the default (1e-5) is judged at 1e-5.
+    if rng.random() < 0.75:
+        bk_tol, kw = BK_TOL_TIGHT, dict(bk_complete_tol=BK_TOL_TIGHT)
+        b1_atol = 10 * BK_TOL_TIGHT + 1e-9
+        ctx.count("tight_bk_complete_tol_calls")
+    else:
+        bk_tol, kw = None, {}
+        b1_atol = BK_COMPLETE_TOL * (1 + 1e-6)
+        ctx.count("default_bk_complete_tol_calls")
+    wit["bk_complete_tol"] = bk_tol
     ctx.count("from_kpoints_calls")
     try:
         bk = BKVectors.from_kpoints(recip_lattice=recip.copy(), mp_grid=mpa.copy(), kpoints_red=kred.copy(),
-                                    kptirr=kptirr)
+                                    kptirr=kptirr, **kw)
     except RuntimeError as e:
         if "Could not find a complete set" in str(e):
             ctx.ev()
@@ -194,23 +208,14 @@ def case(ctx, rng, idx, state):
               what="bk_cart", witness=wit2)
     # ---- (B1)
     B = np.einsum("b,bi,bj->ij", wk, b_h, b_h)
-    res_frob = float(np.linalg.norm(B - np.eye(3)))
     res_max = float(np.abs(B - np.eye(3)).max())
-    if B1_TOL < res_max and res_frob <= BK_COMPLETE_TOL:
-        # not rounding (that is 1e-13): an INCOMPLETE set of shells whose least-squares residual happens to be
-        # below the library's acceptance threshold bk_complete_tol (default 1e-5) - own mechanism
-        ctx.ev()
-        ctx.dev("B1:incomplete_shell_set_accepted_within_bk_complete_tol", res_max / B1_TOL)
-        ctx.violation("B1:incomplete_shell_set_accepted_within_bk_complete_tol",
-                      f"max|sum w b b - 1| = {res_max:.3e} (Frobenius {res_frob:.3e}) > {B1_TOL:g}, accepted because it "
-                      f"is below the default bk_complete_tol={BK_COMPLETE_TOL:g}; {len(wk)} b vectors", wit2)
-        bad_b1 = True
-    else:
-        bad_b1 = not ctx.close("B1:sum_w_b_b!=identity", B, np.eye(3), rtol=0.0, atol=B1_TOL,
-                               what="completeness relation", witness=wit2)
-        B2 = np.einsum("b,bi,bj->ij", wk, bc, bc)
-        ctx.close("B1:sum_w_b_b!=identity", B2, np.eye(3), rtol=0.0, atol=B1_TOL,
-                  what="completeness relation (bk_cart)", witness=wit2)
+    if bk_tol is None and res_max > B1_TOL:
+        ctx.count("default_bk_complete_tol_accepted_residual_gt_1e-8")   # informational: by design of the parameter
+    bad_b1 = not ctx.close("B1:sum_w_b_b!=identity", B, np.eye(3), rtol=0.0, atol=b1_atol,
+                           what=f"completeness relation (bk_complete_tol={bk_tol or 'default 1e-5'})", witness=wit2)
+    B2 = np.einsum("b,bi,bj->ij", wk, bc, bc)
+    ctx.close("B1:sum_w_b_b!=identity", B2, np.eye(3), rtol=0.0, atol=b1_atol,
+              what=f"completeness relation (bk_cart, bk_complete_tol={bk_tol or 'default 1e-5'})", witness=wit2)
 
     # ---- (+-) closure, no repeated / zero vectors
     index = {}
@@ -347,8 +352,9 @@ if __name__ == "__main__":
         assumptions=["b vectors are recomputed by the harness as bk_grid @ (recip_lattice/mp_grid)",
                      "whole-shell oracle = brute-force enumeration of the mesh lattice in a box containing the ball "
                      "of radius max|b|; lengths equal within 1e-9, tie zone (1e-9,1e-5) skipped",
-                     "B1 tolerance 1e-8 absolute (identity has scale 1); neighbour relation in exact integers"],
-        required_counters=("from_kpoints_calls", "shells_checked", "multi_shell_sets", "neighbour_relations_checked",
+                     "B1 tolerance 10*bk_complete_tol+1e-9 = 1.1e-8 absolute when bk_complete_tol=1e-9 is passed, 1e-5 (the documented "
+                     "default acceptance threshold) otherwise; neighbour relation in exact integers"],
+        required_counters=("from_kpoints_calls", "tight_bk_complete_tol_calls", "default_bk_complete_tol_calls", "shells_checked", "multi_shell_sets", "neighbour_relations_checked",
                            "G_nonzero", "kptirr_subset", "setting_resetting") + tuple(f"kind_{k}" for k in KINDS),
         min_nontrivial=50,
     )
